@@ -91,7 +91,7 @@ def main():
     try:
         for pid in a.props.split(","):
             t0 = time.time()
-            rc, out = sh("timeout 900 ./check %s --tier %s 2>&1" % (pid, a.tier), cwd=VERIF)
+            rc, out = sh("timeout %d ./check %s --tier %s 2>&1" % (3400 if a.tier == "thorough" else 900, pid, a.tier), cwd=VERIF)
             lines = [l for l in out.splitlines() if l.startswith("VIOLATION") or "MACHINERY" in l]
             sigs = [l.strip() for l in out.splitlines() if l.startswith("  ") and ":" in l][:6]
             detected[pid] = dict(exit=rc, violation_lines=len(lines), first_signatures=sigs, wall_s=round(time.time() - t0, 1))
